@@ -34,6 +34,7 @@ struct Entry
     int tdef = 0;                  // toggle default (count)
     bool tdef_bool = false;        // declared through default_value(bool)
     bool env_bound = false;
+    int group = 0; // 0 default group, 1/2 named groups "g1"/"g2" (declared through parser.group(name))
     // expectation carried by round-trip cases (C02): intended assignment
     std::vector<std::string> want;
     int want_count = 0;
@@ -52,6 +53,7 @@ struct Entry
         a("tdef", tdef);
         a("tdefb", tdef_bool);
         a("env", env_bound);
+        a("group", group);
         a("want", want);
         a("wantn", want_count);
     }
@@ -136,6 +138,8 @@ inline std::string describe_decl(const Case& c)
         }
         if (e.env_bound)
             o << " env";
+        if (e.group % 3)
+            o << " group=g" << e.group % 3;
     }
     o << "} positionals=" << c.limit << (c.greedy ? " greedy" : "");
     return o.str();
@@ -591,9 +595,13 @@ inline std::unique_ptr<nitro::options::parser> build_parser(const Case& c)
     for (std::size_t i = 0; i < c.e.size(); ++i)
     {
         const Entry& e = c.e[i];
+        // entries live in the default group (declared through the parser or through group())
+        // or in one of two named groups; parsing must not care
+        nitro::options::group& grp =
+            e.group % 3 == 0 ? p->group() : p->group(e.group % 3 == 1 ? "g1" : "g2", "named group");
         if (e.kind == OPTION)
         {
-            auto& o = p->option(e.name, "d");
+            auto& o = (e.group % 3 == 0 && i % 2 == 0) ? p->option(e.name, "d") : grp.option(e.name, "d");
             if (!e.short_.empty())
                 o.short_name(e.short_);
             if (e.optional)
@@ -605,7 +613,7 @@ inline std::unique_ptr<nitro::options::parser> build_parser(const Case& c)
         }
         else if (e.kind == MULTI)
         {
-            auto& o = p->multi_option(e.name, "d");
+            auto& o = (e.group % 3 == 0 && i % 2 == 0) ? p->multi_option(e.name, "d") : grp.multi_option(e.name, "d");
             if (!e.short_.empty())
                 o.short_name(e.short_);
             if (e.optional)
@@ -617,7 +625,7 @@ inline std::unique_ptr<nitro::options::parser> build_parser(const Case& c)
         }
         else
         {
-            auto& o = p->toggle(e.name, "d");
+            auto& o = (e.group % 3 == 0 && i % 2 == 0) ? p->toggle(e.name, "d") : grp.toggle(e.name, "d");
             if (!e.short_.empty())
                 o.short_name(e.short_);
             if (e.reversible)
